@@ -2,7 +2,7 @@
 import importlib
 
 
-def import_rules(ctx, r, prop, only=None, prefix=True):
+def import_rules(ctx, r, prop, only=None, prefix=True, select=None):
     """Run the rules of `prop` in a sub-context sharing all caches; copy the instances of the selected rule ids into rule r."""
     sub = type(ctx)(ctx.prop, ctx.repo, ctx.index, ctx.ev, ctx.tier)
     sub.resolver = ctx.resolver
@@ -20,6 +20,8 @@ def import_rules(ctx, r, prop, only=None, prefix=True):
         if only is not None and rid not in only:
             continue
         for inst in rr.instances:
+            if select is not None and not select(inst["construct"]):
+                continue
             c = f"{prop}.{rid}:{inst['construct']}" if prefix else inst["construct"]
             if inst["verdict"] == "VIOLATION":
                 r.violation(c, inst["detail"], inst["where"])
